@@ -6,7 +6,21 @@ let row_ops i = match Hashtbl.find_opt cache i with
   | Some g -> g | None -> let g = operations table.(i) in Hashtbl.add cache i g; g
 let v3s ((a, b), c) = Printf.sprintf "%d %d %d" (iz a) (iz b) (iz c)
 let modp a n = ((a mod n) + n) mod n
+(* pm: columns as label_hex:type:dataset ... -> the pairs; then, after "|", the row values -> the swapped row *)
+let unhex s = List.init (String.length s / 2) (fun i -> zi (int_of_string ("0x" ^ String.sub s (2 * i) 2)))
+let pm_handle args =
+  let ws = words args in
+  let rec split acc = function "|" :: rest -> (List.rev acc, rest) | x :: rest -> split (x :: acc) rest | [] -> (List.rev acc, []) in
+  let (cs, row) = split [] ws in
+  let cols = List.map (fun w -> match String.split_on_char ':' w with
+      | [l; t; d] -> { c_label = unhex l; c_type = zi (int_of_string t); c_ds = zi (int_of_string d) }
+      | _ -> failwith "pm") cs in
+  let pairs = pm_pairs cols in
+  let ps = String.concat " " (List.map (fun (i, j) -> Printf.sprintf "%d-%d" (int_of_nat i) (int_of_nat j)) pairs) in
+  let out = apply_swaps pairs (List.map (fun w -> zi (int_of_string w)) row) in
+  ps ^ " | " ^ String.concat " " (List.map (fun z -> string_of_int (iz z)) out)
 let handle cmd args : string option =
+  if cmd = "pm" then Some (pm_handle args) else
   match cmd, List.map int_of_string (words args) with
   | "move", [row; tnt; h; k; l] ->
     (match row_ops row with
